@@ -84,7 +84,7 @@ claim('C08', 'proof',
       'periodic shift, incl. TVD where argument terms are structurally identical. Known finding: upwind is not shift invariant on periodic axes.',
       'DESIGN.md 2/C08')
 claim('C09', 'model_checking',
-      'Bounded-exhaustive exploration of edit/solve histories (23 operations; all written values are fresh symbols, so each history is decided '
+      'Bounded-exhaustive exploration of edit/solve histories (24 operations; all written values are fresh symbols, so each history is decided '
       'for all values) plus a fixed-seed random set of longer histories (length 3..7): after every history the system captured from the real solvePDE / the result of solveExplicitPDE is compared entry by entry '
       'with that of a variable freshly constructed from the visible state. Known finding: shared BC object.',
       'DESIGN.md 2/C09')
